@@ -18,7 +18,7 @@ func init() { register(c05{}) }
 
 func (c05) ID() string { return "C05" }
 func (c05) Rule() string {
-	return "location level: every location of gen.Universe(L<=6, arity<=3) plus seeded joins/orders of every arity 1..6 (nested under complement, all partial combinations, L<=40): loc.Reverse(L) must denote the mirror image (residue x->L-1-x, site g->L-g, parts in mirrored order, open ends swapped, nothing lost), Reverse.Reverse and Complement.Complement are identities (denotation and print). sequence level: gts.Reverse / gts.Complement on BasicSequence tables (bytes reversed / IUPAC-complemented by an independent table; every feature present once with mirrored / complemented location), Reverse and Complement involutions on residues, and extraction symmetry: for every feature Region().Locate on Reverse(Complement(rec)) yields the same bytes as on rec, and both equal the model extraction (residues at the base atoms in reading order, complemented on the reverse strand). non-trivial: the location has >=2 parts or a partial end or a site; distinct: canonical case text. A fifth of the sequences hold residue bytes from 0x80 up (left alone by Complement, never lengthened)."
+	return "location level: every location of gen.Universe(L<=6, arity<=3) plus seeded joins/orders of every arity 1..6 (nested under complement, all partial combinations, L<=40): loc.Reverse(L) must denote the mirror image (residue x->L-1-x, site g->L-g, parts in mirrored order, open ends swapped, nothing lost), Reverse.Reverse and Complement.Complement are identities (denotation and print). sequence level: gts.Reverse / gts.Complement on BasicSequence tables (bytes reversed / IUPAC-complemented by an independent table; every feature present once with mirrored / complemented location), Reverse and Complement involutions on residues, and extraction symmetry: for every feature Region().Locate on Reverse(Complement(rec)) yields the same bytes as on rec, and both equal the model extraction (residues at the base atoms in reading order, complemented on the reverse strand). non-trivial: the location has >=2 parts or a partial end or a site; distinct: canonical case text. A fifth of the sequences hold residue bytes from 0x80 up (left alone by Complement, never lengthened). gts reverse / gts complement also on one-residue records with a feature open at one end."
 }
 func (c05) RequiredBuckets(tier string) []string {
 	out := []string{"arity:1", "arity:2", "arity:3", "arity:4", "arity:5", "arity:6", "arity-parity:odd", "arity-parity:even",
@@ -26,7 +26,7 @@ func (c05) RequiredBuckets(tier string) []string {
 	for _, k := range []string{"point", "site", "range", "prange", "ambiguous", "join", "order", "c-range", "c-join", "c-order"} {
 		out = append(out, "kind|"+k)
 	}
-	return append(out, "cli:reverse", "cli:complement", "cli:reverse cache-on", "cli:complement cache-on", "cli:complement CONTIG-only record")
+	return append(out, "cli:reverse", "cli:complement", "cli:reverse cache-on", "cli:complement cache-on", "cli:complement CONTIG-only record", "cli:one-residue record with an open end")
 }
 func (c05) Findings() []fw.Finding {
 	return []fw.Finding{
